@@ -329,13 +329,23 @@ def run(ctx):
         ctx.add_tlc(res)
         if not thorough and cfg == "graph5":
             rng.shuffle(ss)
-            ss = ss[:700]
+            ss = ss[:500]
         for s in ss:
             key = repr(s["hist"])
             if key not in seen:
                 seen.add(key)
                 sts.append(s)
         ctx.count("histories:" + cfg, len(ss))
+    # long random histories (beyond the exhaustive depth): TLC simulation mode, one behaviour per walk
+    sres, finals = tlc.simulate_final_states("mc/MC_C14", "mc/MC_C14_sim12.cfg", 1500 if thorough else 80, 13, ctx.seed + 1, "C14")
+    nsim = 0
+    for s in finals:
+        if "hist" in s and repr(s["hist"]) not in seen:
+            seen.add(repr(s["hist"]))
+            sts.append(s)
+            nsim += 1
+    ctx.count("histories:simulated-depth<=12", nsim)
+    ctx.states += sres.generated
     if not sts:
         raise MachineryFailure("no histories")
     parts = pmap(_chunk, [sts[i:i + 20] for i in range(0, len(sts), 20)], chunksize=1)
